@@ -12,6 +12,7 @@ import CassisModel.Model.Heap
 import CassisModel.Model.Cas
 import CassisModel.Model.Traverse
 import CassisModel.Model.Merge
+import CassisModel.Model.Xmi
 import CassisModel.Gen.Builtins
 import CassisModel.Spec.BuiltinChecks
 
@@ -201,6 +202,105 @@ def docAnnotation (ci : Nat) (h : Handle) : M (Except Err Nat) := do
     setCas ci c'
     pure (.ok a)
 
+
+/-! ## XMI documents and canonical CAS dumps -/
+
+def jXElem (e : Xmi.XElem) : Json :=
+  Json.mkObj [("ty", jStr e.ty),
+    ("attrs", Json.arr (e.attrs.map (fun p => Json.arr #[jStr p.1, jStr p.2])).toArray),
+    ("kids", Json.arr (e.kids.map (fun p => Json.arr #[jStr p.1, jOptStr p.2])).toArray)]
+
+def xElemOfJson (j : Json) : P Xmi.XElem := do
+  let ty ← fldStr j "ty"
+  let attrs ← (← fldArr j "attrs").mapM (fun a => do
+    match (← a.getArr?).toList with
+    | [k, v] => pure ((← k.getStr?), (← v.getStr?))
+    | _ => throw "bad attr")
+  let kids ← (← fldArr j "kids").mapM (fun a => do
+    match (← a.getArr?).toList with
+    | [k, Json.null] => pure ((← k.getStr?), (none : Option String))
+    | [k, v] => pure ((← k.getStr?), some (← v.getStr?))
+    | _ => throw "bad kid")
+  pure { ty := ty, attrs := attrs, kids := kids }
+
+/-- id of the structure at `a`, `null` for none, 0 for the cas:NULL object -/
+def jIdOf (hp : Heap) (a : Nat) : Json :=
+  match (hp[a]?).bind (·.xid) with
+  | some x => jInt x
+  | none => Json.str "noid"
+
+def jElemVals (hp : Heap) (v : Val) : Json :=
+  match v with
+  | .none => Json.null
+  | .refs l => Json.arr (l.map (fun r => match r with | some a => jIdOf hp a | none => Json.null)).toArray
+  | .ints l => jList jInt l
+  | .floats l => jList (fun t => Json.mkObj [("f", jStr t)]) l
+  | .bools l => jList Json.bool l
+  | .strs l => jList jOptStr l
+  | _ => Json.str "?"
+
+partial def jListHeads (hp : Heap) (fuel : Nat) (v : Val) : List Json :=
+  match fuel, v with
+  | 0, _ => []
+  | f+1, .ref a =>
+    match Traverse.slot hp a "head" with
+    | none => []
+    | some hd =>
+      let h := match hd with
+        | .ref t => jIdOf hp t
+        | .none => Json.null
+        | other => jsonOfVal other
+      h :: jListHeads hp f ((Traverse.slot hp a "tail").getD .none)
+  | _, _ => []
+
+/-- canonical value of one feature in the coarse (XMI) or fine (JSON) reading -/
+def dumpFeature (w : World) (ts : TS.TypeSystem) (fine : Bool) (a : Nat) (f : TS.Feature) : Option (String × Json) :=
+  let hp := w.heap
+  match Traverse.slot hp a f.name with
+  | none | some .none => none
+  | some v =>
+    let multi := f.multi.getD false
+    let inlineColl := !fine && !multi && (TS.isArray K f.range || TS.isList K f.range)
+    if inlineColl then
+      if TS.isArray K f.range then
+        match v with
+        | .ref arr => some (f.name, Json.mkObj [("arr", jElemVals hp ((Traverse.slot hp arr "elements").getD .none))])
+        | _ => some (f.name, Json.str "?")
+      else some (f.name, Json.mkObj [("list", Json.arr (jListHeads hp (hp.length + 1) v).toArray)])
+    else
+      match v with
+      | .ref t => some (f.name, Json.mkObj [("ref", jIdOf hp t)])
+      | .sofa _ vn => some (f.name, Json.mkObj [("sofa", jStr vn)])
+      | .int _ | .str _ | .bool _ | .float _ => some (f.name, jsonOfVal v)
+      | other => some (f.name, jElemVals hp other)
+
+def dumpCas (ci : Nat) (fine : Bool) : M Json := do
+  let c ← getCas ci
+  let (_, ts) ← casTsOf ci
+  let w ← get
+  match Traverse.findAllFs K ts { includeInlinable := fine } w.heap c.nextXid (Traverse.defaultSeeds c) with
+  | .error e => pure (jErr e.toString)
+  | .ok st =>
+    set { w with heap := st.heap }
+    setCas ci { c with nextXid := st.nextXid }
+    let w ← get
+    let views := c.views.map (fun p =>
+      let ids := (Index.all p.2.idx).filterMap (fun e => (st.heap[e.oid]?).bind (·.xid))
+      Json.mkObj [("name", jStr p.1), ("id", jInt p.2.sofa.xid), ("num", jInt p.2.sofa.sofaNum),
+        ("mime", jOptStr p.2.sofa.mime), ("uri", jOptStr p.2.sofa.uri),
+        ("text", match p.2.sofa.text with | some t => jList jNat t | none => Json.null),
+        ("array", match p.2.sofa.arr with | .ref a => jIdOf st.heap a | _ => Json.null),
+        ("members", jList jInt (Xmi.sortInts ids))])
+    let fss := (Xmi.sortById st.allFs).map (fun (p : Int × Nat) =>
+      match st.heap[p.2]? with
+      | none => (toString p.1, Json.null)
+      | some o =>
+        let feats := match TS.getType ts o.ty with
+          | .ok t => (TS.allFeatures t).filterMap (dumpFeature w ts fine p.2)
+          | .error _ => []
+        (toString p.1, Json.mkObj [("type", jStr o.ty), ("feats", Json.mkObj feats)]))
+    pure (jOk (Json.mkObj [("views", Json.arr views.toArray), ("fs", Json.mkObj fss)]))
+
 def splitPath (p : String) : List String := p.splitOn "."
 
 def runOp (j : Json) : M Json := do
@@ -327,6 +427,30 @@ def runOp (j : Json) : M Json := do
     let w ← get
     res (Cas.coveredText w.cass.toList w.heap a) fun t =>
       pure (jOk (match t with | some l => jList jNat l | none => Json.null))
+  | "xmi.save" =>
+    let (ci, _) ← getHandle (← liftP (fldNat j "h"))
+    let (_, ts) ← casTsOf ci
+    let w ← get
+    res (Xmi.saveXmi K ts w.cass.toList ci w.heap) fun (doc, st) => do
+      set { w with heap := st.heap }
+      let c ← getCas ci
+      setCas ci { c with nextXid := st.nextXid }
+      pure (jOk (jList jXElem doc))
+  | "xmi.load" =>
+    let ti ← liftP (fldNat j "ts")
+    let ts ← getTs ti
+    let lenient ← liftP (boolD j "lenient" false)
+    let doc ← liftP (do (← fldArr j "doc").mapM xElemOfJson)
+    let w ← get
+    let ci := w.cass.size
+    res (Xmi.loadXmi K ts ti ci lenient w.heap doc) fun ld => do
+      let h : Handle := { view := Cas.INITIAL_VIEW, lenient := lenient }
+      set { w with heap := ld.heap, cass := w.cass.push ld.cas, casTs := w.casTs.push ti, handles := w.handles.push (ci, h) }
+      pure (jOk (jNat w.handles.size))
+  | "cas.dump" =>
+    let (ci, _) ← getHandle (← liftP (fldNat j "h"))
+    let fine ← liftP (boolD j "fine" false)
+    dumpCas ci fine
   | "cas.new" =>
     let ti ← liftP (fldNat j "ts")
     let _ ← getTs ti
